@@ -444,7 +444,9 @@ func c13Units(tier string) []Unit {
 			ExploreSched(c, wmScenario(s, &obs), SchedOpts{Budgets: bud, MaxEnv: -1, MaxSteps: 50000,
 				Outcome: func() string { return obs },
 				NT:      func() string { return fmt.Sprintf("overflow%d#%s", n, obs) },
-				Sample:  func() any { return map[string]any{"scripts": fmt.Sprintf("B1..B%d D%d..D1 | B%d W%d D%d W%d", n, n, n+1, n, n+1, n+1), "result": obs} }})
+				Sample: func() any {
+					return map[string]any{"scripts": fmt.Sprintf("B1..B%d D%d..D1 | B%d W%d D%d W%d", n, n, n+1, n, n+1, n+1), "result": obs}
+				}})
 		}})
 	}
 	return units
